@@ -260,7 +260,7 @@ func runC18(b *fw.B) {
 }
 
 func finishC18(m *fw.Merged) {
-	src, err := faults.PollSitesInSource("/repo", []string{"eth2/beacon/common", "eth2/beacon/phase0", "eth2/beacon/altair", "eth2/beacon/bellatrix", "eth2/beacon/capella", "eth2/beacon/deneb"})
+	src, err := faults.PollSitesInSource(fw.RepoDir, []string{"eth2/beacon/common", "eth2/beacon/phase0", "eth2/beacon/altair", "eth2/beacon/bellatrix", "eth2/beacon/capella", "eth2/beacon/deneb"})
 	if err != nil {
 		m.Inconclusive = append(m.Inconclusive, "cannot scan poll sites: "+err.Error())
 		return
